@@ -216,19 +216,29 @@ structure SEntry where
   inLib : Bool
 deriving DecidableEq, Repr
 
-def sameKey (fc : Char → Char) (a b : Str) : Bool := foldS fc a == foldS fc b
+/-- the dictionary key of an entry: the name as written for the case-sensitive sections (unit classes, unit
+modifiers, value classes, attributes, properties, units that are symbols), the case-folded name for the other
+units (`HedSchemaUnitSection._check_if_duplicate`) -/
+def nameKeyExact (e : SEntry) : Str := e.name
+def unitKey (fc : Char → Char) (e : SEntry) : Str :=
+  if e.attrs.any (fun kv => kv.1 == "unitSymbol".toList) then e.name else foldS fc e.name
 
-/-- `HedSchemaSection._add_to_dict/_check_if_duplicate` over a list of new entries: an entry whose (folded)
-name is already bound is recorded in `duplicate_names` and binds nothing.  `acc` = entries bound so far. -/
-def addAll (fc : Char → Char) : List SEntry → List SEntry → List Str → List SEntry × List Str
+/-- `HedSchemaUnitClassSection._check_if_duplicate`: an entry whose only attribute is `inLibrary` -/
+def isPlaceholder (e : SEntry) : Bool := e.attrs.isEmpty && e.inLib
+
+/-- `HedSchemaSection._add_to_dict/_check_if_duplicate` over a list of new entries: an entry whose key is
+already bound is recorded in `duplicate_names` and binds nothing — except, in the unit-class section (`ph`),
+a bare placeholder of an existing class (it only carries new units).  `acc` = entries bound so far. -/
+def addAll (key : SEntry → Str) (ph : Bool) : List SEntry → List SEntry → List Str → List SEntry × List Str
   | [], acc, d => (acc, d)
   | e :: es, acc, d =>
-    if acc.any (fun x => sameKey fc x.name e.name) then addAll fc es acc (d ++ [e.name])
-    else addAll fc es (acc ++ [e]) d
+    if acc.any (fun x => key x == key e) then
+      (if ph && isPlaceholder e then addAll key ph es acc d else addAll key ph es acc (d ++ [e.name]))
+    else addAll key ph es (acc ++ [e]) d
 
-/-- `section.get(name)` -/
-def sectionGet (fc : Char → Char) (sec : List SEntry) (n : Str) : Option SEntry :=
-  sec.find? (fun x => sameKey fc x.name n)
+/-- `section.get(key)` -/
+def sectionGet (key : SEntry → Str) (sec : List SEntry) (k : Str) : Option SEntry :=
+  sec.find? (fun x => key x == k)
 
 /-- what the loader offers to the section: everything of an unmerged library file; only the `inLibrary`
 entries of a merged file that is appended (`_add_to_dict_base`) -/
@@ -236,9 +246,9 @@ def offered (lib : List SEntry) (appendingMerged : Bool) : List SEntry :=
   if appendingMerged then lib.filter (·.inLib) else lib
 
 /-- merging one section of a library into the partner's; `has_duplicates()` refuses the result of an append -/
-def mergeSection (fc : Char → Char) (base lib : List SEntry) (appendingMerged : Bool) :
+def mergeSection (key : SEntry → Str) (ph : Bool) (base lib : List SEntry) (appendingMerged : Bool) :
     Except (List Str) (List SEntry) :=
-  let r := addAll fc (offered lib appendingMerged) base []
+  let r := addAll key ph (offered lib appendingMerged) base []
   if r.2.isEmpty then .ok r.1 else .error r.2
 
 /-! ### several versions under one prefix: the header guards of `SchemaLoader.__init__` -/
